@@ -387,3 +387,70 @@ func ImageUnsorted(m map[string]int) []int {
 	sort.Strings(ks)
 	return ls
 }
+
+// NamedLess must stay silent: the comparison is bound to a name first; by rank, then by the element.
+func NamedLess(m map[string]int) []string {
+	var ks []string
+	for k := range m {
+		ks = append(ks, k)
+	}
+	byRankThenName := func(i, j int) bool {
+		if m[ks[i]] != m[ks[j]] {
+			return m[ks[i]] < m[ks[j]]
+		}
+		return ks[i] < ks[j]
+	}
+	sort.Slice(ks, byRankThenName)
+	return ks
+}
+
+// NamedLessPartial must be reported: the named comparison stops at the rank.
+func NamedLessPartial(m map[string]int) []string {
+	var ks []string
+	for k := range m {
+		ks = append(ks, k)
+	}
+	byRank := func(i, j int) bool { return m[ks[i]] < m[ks[j]] }
+	sort.Slice(ks, byRank)
+	return ks
+}
+
+// NamedPeek must be reported: the function bound to a name reads the unsorted slice before the sort.
+func NamedPeek(m map[string]int) (string, []string) {
+	var ks []string
+	for k := range m {
+		ks = append(ks, k)
+	}
+	head := func() string { return ks[0] }
+	h := head()
+	sort.Strings(ks)
+	return h, ks
+}
+
+// GuardMinMax must stay silent: MinMax with the else branch written as a guard that continues.
+func GuardMinMax(m map[string]box) (res box) {
+	first := true
+	for _, b := range m {
+		if b.lo > b.hi {
+			continue
+		}
+		if !first {
+			res.Extend(b)
+			continue
+		}
+		res = b
+		first = false
+	}
+	return res
+}
+
+// GuardLast must be reported: behind the guard the last entry delivered wins.
+func GuardLast(m map[string]box) (res box) {
+	for _, b := range m {
+		if b.lo > b.hi {
+			continue
+		}
+		res = b
+	}
+	return res
+}
